@@ -73,7 +73,8 @@ class Lemma:
 
 
 class ClassDecl:
-    def __init__(self, key, fields, invariant=(), bases=(), construct=None, private_prefix=None):
+    def __init__(self, key, fields, invariant=(), bases=(), construct=None, private_prefix=None, gen=None):
+        self.gen = gen
         self.key = key                  # "path.py:ClassName"
         self.name = key.split(":")[1]
         self.fields = dict(fields)      # name -> Ty
@@ -86,7 +87,9 @@ class Contract:
     def __init__(self, key, params, returns=None, requires=(), ensures=(), raises=None, loops=None,
                  modifies=(), inline=(), witness=(), ghost=(), trusted=False, pure=False, note="",
                  raise_ensures=None, decreases=None, body=None, unroll=None, assume_valid=True,
-                 replay=None, props=(), lemmas=(), locals=None, hints=()):
+                 replay=None, props=(), lemmas=(), locals=None, hints=(), domains=None, gen=None):
+        self.domains = dict(domains or {})   # generator hints for the run-time cross-check (param -> generator type)
+        self.gen = gen
         self.key = key                    # "path.py:qualname"
         self.params = dict(params)        # ordered name -> Ty
         self.returns = returns
